@@ -1,7 +1,12 @@
-// Unit `jose_headers` — serves C11 (+ C05 for the same functions).
+// Unit `jws_decode` — serves C01 (+ C05/C11 for the same functions). Includes the header unit's body so
+// that validate_jws_headers etc. are used through the contracts proved there.
 #![feature(allocator_api)]
+#![feature(sized_hierarchy)]
+#![verifier::allow(undeclared_external_trait)]
 use vstd::prelude::*;
 use std::collections::BTreeMap;
+use std::borrow::Cow;
+use vstd::string::StringSliceAdditionalSpecFns;
 verus! {
 
 // ---- shared std prelude (assumed specifications of core/alloc items vstd does not cover) ----
@@ -113,20 +118,8 @@ impl JwtHeader {
   {
     self.jku.as_ref()
   }
-  pub fn jku__canary(&self) -> (r: Option<&Url>)
-    ensures r is Some <==> self.jku is Some,
-      false,
-  {
-    self.jku.as_ref()
-  }
   pub fn jwk(&self) -> (r: Option<&Jwk>)
     ensures r is Some <==> self.jwk is Some,
-  {
-    self.jwk.as_ref()
-  }
-  pub fn jwk__canary(&self) -> (r: Option<&Jwk>)
-    ensures r is Some <==> self.jwk is Some,
-      false,
   {
     self.jwk.as_ref()
   }
@@ -135,20 +128,8 @@ impl JwtHeader {
   {
     self.kid.as_deref()
   }
-  pub fn kid__canary(&self) -> (r: Option<&str>)
-    ensures r is Some <==> self.kid is Some,
-      false,
-  {
-    self.kid.as_deref()
-  }
   pub fn x5u(&self) -> (r: Option<&Url>)
     ensures r is Some <==> self.x5u is Some,
-  {
-    self.x5u.as_ref()
-  }
-  pub fn x5u__canary(&self) -> (r: Option<&Url>)
-    ensures r is Some <==> self.x5u is Some,
-      false,
   {
     self.x5u.as_ref()
   }
@@ -157,20 +138,8 @@ impl JwtHeader {
   {
     self.x5c.as_deref()
   }
-  pub fn x5c__canary(&self) -> (r: Option<&[String]>)
-    ensures r is Some <==> self.x5c is Some,
-      false,
-  {
-    self.x5c.as_deref()
-  }
   pub fn x5t(&self) -> (r: Option<&str>)
     ensures r is Some <==> self.x5t is Some,
-  {
-    self.x5t.as_deref()
-  }
-  pub fn x5t__canary(&self) -> (r: Option<&str>)
-    ensures r is Some <==> self.x5t is Some,
-      false,
   {
     self.x5t.as_deref()
   }
@@ -179,20 +148,8 @@ impl JwtHeader {
   {
     self.x5t_s256.as_deref()
   }
-  pub fn x5t_s256__canary(&self) -> (r: Option<&str>)
-    ensures r is Some <==> self.x5t_s256 is Some,
-      false,
-  {
-    self.x5t_s256.as_deref()
-  }
   pub fn typ(&self) -> (r: Option<&str>)
     ensures r is Some <==> self.typ is Some,
-  {
-    self.typ.as_deref()
-  }
-  pub fn typ__canary(&self) -> (r: Option<&str>)
-    ensures r is Some <==> self.typ is Some,
-      false,
   {
     self.typ.as_deref()
   }
@@ -201,20 +158,8 @@ impl JwtHeader {
   {
     self.cty.as_deref()
   }
-  pub fn cty__canary(&self) -> (r: Option<&str>)
-    ensures r is Some <==> self.cty is Some,
-      false,
-  {
-    self.cty.as_deref()
-  }
   pub fn crit(&self) -> (r: Option<&[String]>)
     ensures r is Some <==> self.crit is Some, r is Some ==> r->Some_0@ == self.crit->Some_0@,
-  {
-    self.crit.as_deref()
-  }
-  pub fn crit__canary(&self) -> (r: Option<&[String]>)
-    ensures r is Some <==> self.crit is Some, r is Some ==> r->Some_0@ == self.crit->Some_0@,
-      false,
   {
     self.crit.as_deref()
   }
@@ -223,20 +168,8 @@ impl JwtHeader {
   {
     self.url.as_ref()
   }
-  pub fn url__canary(&self) -> (r: Option<&Url>)
-    ensures r is Some <==> self.url is Some,
-      false,
-  {
-    self.url.as_ref()
-  }
   pub fn nonce(&self) -> (r: Option<&str>)
     ensures r is Some <==> self.nonce is Some,
-  {
-    self.nonce.as_deref()
-  }
-  pub fn nonce__canary(&self) -> (r: Option<&str>)
-    ensures r is Some <==> self.nonce is Some,
-      false,
   {
     self.nonce.as_deref()
   }
@@ -259,47 +192,8 @@ impl JwtHeader {
       _ => false,
     }
   }
-  pub fn has__canary(&self, claim: &str) -> (r: bool)
-    ensures r == jwt_has(self, claim@),
-      false,
-  {
-    match claim {
-      "jku" => self.jku().is_some(),
-      "jwk" => self.jwk().is_some(),
-      "kid" => self.kid().is_some(),
-      "x5u" => self.x5u().is_some(),
-      "x5c" => self.x5c().is_some(),
-      "x5t" => self.x5t().is_some(),
-      "x5t#S256" => self.x5t_s256().is_some(),
-      "typ" => self.typ().is_some(),
-      "cty" => self.cty().is_some(),
-      "crit" => self.crit().is_some(),
-      "url" => self.url().is_some(),
-      "nonce" => self.nonce().is_some(),
-      _ => false,
-    }
-  }
   pub fn is_disjoint(&self, other: &JwtHeader) -> (r: bool)
     ensures r == jwt_disjoint(self, other),
-  {
-    let has_duplicate: bool = self.jku.is_some() && other.jku.is_some()
-      || self.jwk.is_some() && other.jwk.is_some()
-      || self.kid.is_some() && other.kid.is_some()
-      || self.x5u.is_some() && other.x5u.is_some()
-      || self.x5c.is_some() && other.x5c.is_some()
-      || self.x5t.is_some() && other.x5t.is_some()
-      || self.x5t_s256.is_some() && other.x5t_s256.is_some()
-      || self.typ.is_some() && other.typ.is_some()
-      || self.cty.is_some() && other.cty.is_some()
-      || self.crit.is_some() && other.crit.is_some()
-      || self.url.is_some() && other.url.is_some()
-      || self.nonce.is_some() && other.nonce.is_some();
-
-    !has_duplicate
-  }
-  pub fn is_disjoint__canary(&self, other: &JwtHeader) -> (r: bool)
-    ensures r == jwt_disjoint(self, other),
-      false,
   {
     let has_duplicate: bool = self.jku.is_some() && other.jku.is_some()
       || self.jwk.is_some() && other.jwk.is_some()
@@ -356,20 +250,8 @@ impl JwsHeader {
   {
     self.alg.as_ref().cloned()
   }
-  pub fn alg__canary(&self) -> (r: Option<JwsAlgorithm>)
-    ensures r == self.alg,
-      false,
-  {
-    self.alg.as_ref().cloned()
-  }
   pub fn b64(&self) -> (r: Option<bool>)
     ensures r == self.b64,
-  {
-    self.b64
-  }
-  pub fn b64__canary(&self) -> (r: Option<bool>)
-    ensures r == self.b64,
-      false,
   {
     self.b64
   }
@@ -389,33 +271,8 @@ impl JwsHeader {
       }
     }
   }
-  pub fn has__canary(&self, claim: &str) -> (r: bool)
-    ensures r == jws_has(self, claim@),
-      false,
-  { proof { ax::axiom_string_keys_ordered(); } 
-    match claim {
-      "alg" => self.alg().is_some(),
-      "b64" => self.b64().is_some(),
-      _ => {
-        self.common.has(claim)
-          || self
-            .custom
-            .as_ref()
-            .map(|custom: &BTreeMap<String, Value>| -> (b: bool) ensures b == bt_has(custom, claim) { custom.get(claim).is_some() })
-            .unwrap_or(false)
-      }
-    }
-  }
   pub fn is_disjoint(&self, other: &JwsHeader) -> (r: bool)
     ensures r == jws_disjoint(self, other),
-  {
-    let has_duplicate: bool = self.alg().is_some() && other.alg.is_some() || self.b64.is_some() && other.b64.is_some();
-
-    !has_duplicate && self.common.is_disjoint(other.common()) && self.is_custom_disjoint(other)
-  }
-  pub fn is_disjoint__canary(&self, other: &JwsHeader) -> (r: bool)
-    ensures r == jws_disjoint(self, other),
-      false,
   {
     let has_duplicate: bool = self.alg().is_some() && other.alg.is_some() || self.b64.is_some() && other.b64.is_some();
 
@@ -525,32 +382,9 @@ pub(crate) fn extract_b64(header: Option<&JwsHeader>) -> (r: bool)
 {
   header.and_then(|x_eta| -> (r_eta: _) requires call_requires(JwsHeader::b64, (x_eta,)) ensures call_ensures(JwsHeader::b64, (x_eta,), r_eta) { JwsHeader::b64(x_eta) }).unwrap_or(DEFAULT_B64)
 }
-pub(crate) fn extract_b64__canary(header: Option<&JwsHeader>) -> (r: bool)
-  ensures r == (if b64_of(header) is Some { b64_of(header)->Some_0 } else { true }),
-    false,
-{
-  header.and_then(|x_eta| -> (r_eta: _) requires call_requires(JwsHeader::b64, (x_eta,)) ensures call_ensures(JwsHeader::b64, (x_eta,), r_eta) { JwsHeader::b64(x_eta) }).unwrap_or(DEFAULT_B64)
-}
 
 pub(crate) fn validate_disjoint(protected: Option<&JwsHeader>, unprotected: Option<&JwsHeader>) -> (r: Result<()>)
   ensures r is Ok <==> disjoint_ok(protected, unprotected),
-{
-  let is_disjoint: bool = match (protected, unprotected) {
-    (Some(protected), Some(unprotected)) => protected.is_disjoint(unprotected),
-    _ => true,
-  };
-
-  if is_disjoint {
-    Ok(())
-  } else {
-    Err(Error::InvalidContent(
-      "protected and unprotected headers are not disjoint",
-    ))
-  }
-}
-pub(crate) fn validate_disjoint__canary(protected: Option<&JwsHeader>, unprotected: Option<&JwsHeader>) -> (r: Result<()>)
-  ensures r is Ok <==> disjoint_ok(protected, unprotected),
-    false,
 {
   let is_disjoint: bool = match (protected, unprotected) {
     (Some(protected), Some(unprotected)) => protected.is_disjoint(unprotected),
@@ -622,76 +456,9 @@ forall|j: int| 0 <= j < it.index@ ==> !is_registered(#[trigger] values@[j]@) && 
 
   Ok(())
 }
-pub(crate) fn validate_crit__canary<T>(protected: Option<&T>, unprotected: Option<&T>) -> (r: Result<()>) where
-T: JoseHeader,
-  ensures r is Ok <==> crit_ok_gen(protected, unprotected),
-    false,
-{
-  // The "crit" parameter MUST be integrity protected
-  if unprotected.map(|header: &T| -> (b: bool) ensures b == header.has_claim_spec("crit"@) { header.has_claim("crit") }).unwrap_or_default() {
-    return Err(Error::InvalidParam("unprotected crit"));
-  }
-
-  let values: Option<&[String]> = protected.and_then(|header: &T| -> (o: Option<&[String]>) ensures o is Some <==> header.common_spec().crit is Some, o is Some ==> o->Some_0@ == header.common_spec().crit->Some_0@ { header.common().crit() });
-
-  // The "crit" parameter MUST NOT be an empty list
-  if values.map(|values: &[String]| -> (b: bool) ensures b == (values@.len() == 0) { values.is_empty() }).unwrap_or_default() {
-    return Err(Error::InvalidParam("empty crit"));
-  }
-
-  let values: &[String] = values.unwrap_or_default();
-
-  for value in it: values 
-invariant values@ =~= (if protected is Some && protected->Some_0.common_spec().crit is Some { protected->Some_0.common_spec().crit->Some_0@ } else { Seq::<String>::empty() }),
-forall|j: int| 0 <= j < it.index@ ==> !is_registered(#[trigger] values@[j]@) && is_implemented_ext(values@[j]@) && protected is Some && protected->Some_0.has_claim_spec(values@[j]@),
-{
-    // The "crit" parameter MUST NOT contain any header parameters defined by
-    // the JOSE JWS/JWA specifications.
-    if PREDEFINED.contains(&&**value) {
-      return Err(Error::InvalidParam("crit contains pre-defined parameters"));
-    }
-
-    // The "crit" parameter MUST be understood by the application.
-    if !PERMITTED_CRITS.contains(&AsRef::<str>::as_ref(value)) {
-      return Err(Error::InvalidParam("unpermitted crit"));
-    }
-
-    let exists: bool = protected
-      .map(|header: &T| -> (b: bool) ensures b == header.has_claim_spec(value@) { header.has_claim(value) })
-      .or_else(|| -> (o: Option<bool>) ensures o is Some <==> unprotected is Some, o is Some ==> o->Some_0 == unprotected->Some_0.has_claim_spec(value@) { unprotected.map(|header: &T| -> (b: bool) ensures b == header.has_claim_spec(value@) { header.has_claim(value) }) })
-      .unwrap_or_default();
-
-    if !exists {
-      return Err(Error::InvalidParam("crit"));
-    }
-  }
-
-  Ok(())
-}
 
 pub(crate) fn validate_b64(protected: Option<&JwsHeader>, unprotected: Option<&JwsHeader>) -> (r: Result<()>)
   ensures r is Ok <==> (b64_of(unprotected) is None && !(b64_of(protected) is Some && crit_of(protected) is None)),
-{
-  // The "b64" parameter MUST be integrity protected
-  if unprotected.and_then(|x_eta| -> (r_eta: _) requires call_requires(JwsHeader::b64, (x_eta,)) ensures call_ensures(JwsHeader::b64, (x_eta,), r_eta) { JwsHeader::b64(x_eta) }).is_some() {
-    return Err(Error::InvalidParam("unprotected `b64` parameter"));
-  }
-
-  let b64: Option<bool> = protected.and_then(|header: &JwsHeader| -> (o: Option<bool>) ensures o == header.b64 { header.b64() });
-  let crit: Option<&[String]> = protected.and_then(|header: &JwsHeader| -> (o: Option<&[String]>) ensures o is Some <==> header.common.crit is Some, o is Some ==> o->Some_0@ == header.common.crit->Some_0@ { header.crit() });
-
-  // The "b64" parameter MUST be included in the "crit" parameter values
-  match (b64, crit) {
-    (Some(_), Some(values)) if values.iter().any(|value: &String| -> (b: bool) ensures b == (value@ == "b64"@) { value == "b64" }) => Ok(()),
-    (Some(_), None) => Err(Error::InvalidParam(
-      "`b64` param must be included in the crit parameter values",
-    )),
-    _ => Ok(()),
-  }
-}
-pub(crate) fn validate_b64__canary(protected: Option<&JwsHeader>, unprotected: Option<&JwsHeader>) -> (r: Result<()>)
-  ensures r is Ok <==> (b64_of(unprotected) is None && !(b64_of(protected) is Some && crit_of(protected) is None)),
-    false,
 {
   // The "b64" parameter MUST be integrity protected
   if unprotected.and_then(|x_eta| -> (r_eta: _) requires call_requires(JwsHeader::b64, (x_eta,)) ensures call_ensures(JwsHeader::b64, (x_eta,), r_eta) { JwsHeader::b64(x_eta) }).is_some() {
@@ -732,18 +499,336 @@ pub(crate) fn validate_jws_headers(protected: Option<&JwsHeader>, unprotected: O
 
   Ok(())
 }
-pub(crate) fn validate_jws_headers__canary(protected: Option<&JwsHeader>, unprotected: Option<&JwsHeader>) -> (r: Result<()>)
-  ensures r is Ok <==> policy_ok(protected, unprotected),
-    false,
-{ proof { lemma_policy(protected, unprotected); } 
-  validate_disjoint(protected, unprotected)?;
-  validate_crit(protected, unprotected)?;
-  validate_b64(protected, unprotected)?;
 
-  Ok(())
+
+
+
+
+// ------------------------------------------------------------------------------------------------
+// Dependency boundary (ASSUMED): base64url, JSON, UTF-8, the key's `alg` member, algorithm names
+// ------------------------------------------------------------------------------------------------
+// UTF-8 bytes of a string: vstd's `str::spec_bytes`
+/// base64url (no padding) decoding of a byte string; None = not valid base64url
+pub uninterp spec fn b64url_dec(data: Seq<u8>) -> Option<Seq<u8>>;
+/// JSON deserialisation of a JWS header; None = invalid
+pub uninterp spec fn json_header(data: Seq<u8>) -> Option<JwsHeader>;
+pub uninterp spec fn alg_name(a: JwsAlgorithm) -> Seq<char>;
+pub uninterp spec fn jwk_alg(k: &Jwk) -> Option<Seq<char>>;
+
+#[verifier::external_trait_specification]
+pub trait ExAsRef<T: core::marker::PointeeSized>: core::marker::PointeeSized {
+  type ExternalTraitSpecificationFor: AsRef<T> + core::marker::PointeeSized;
+  fn as_ref(&self) -> &T;
+}
+pub assume_specification<T: ?Sized, A: core::alloc::Allocator>[ <Box<T, A> as AsRef<T>>::as_ref ](b: &Box<T, A>) -> (r: &T)
+  ensures r == &**b;
+pub assume_specification[ <str as AsRef<str>>::as_ref ](s: &str) -> (r: &str) ensures r@ == s@;
+pub assume_specification<'a, 'b, T: core::marker::PointeeSized + AsRef<U>, U: core::marker::PointeeSized>[ <&'a T as AsRef<U>>::as_ref ](s: &'b &'a T) -> (r: &'b U)
+  ensures call_ensures(<T as AsRef<U>>::as_ref, (*s,), r);
+
+#[verifier::external_trait_specification]
+pub trait ExFromStr: Sized {
+  type ExternalTraitSpecificationFor: core::str::FromStr;
+  type Err;
+  fn from_str(s: &str) -> core::result::Result<Self, Self::Err>;
+}
+impl core::str::FromStr for JwsAlgorithm {
+  type Err = Error;
+  #[verifier::external_body]
+  fn from_str(string: &str) -> core::result::Result<Self, Error> { unimplemented!() }
+}
+pub assume_specification<F: core::str::FromStr>[ str::parse::<F> ](s: &str) -> (r: core::result::Result<F, F::Err>)
+  ensures call_ensures(<F as core::str::FromStr>::from_str, (s,), r);
+impl JwsAlgorithm {
+  #[verifier::external_body]
+  pub const fn name(self) -> (r: &'static str) ensures r@ == alg_name(self) { unimplemented!() }
+}
+impl Jwk {
+  #[verifier::external_body]
+  pub fn alg(&self) -> (r: Option<&str>) ensures r is Some <==> jwk_alg(self) is Some, r is Some ==> r->Some_0@ == jwk_alg(self)->Some_0 { unimplemented!() }
+
+  pub fn check_alg(&self, expected: &str) -> (r: Result<()>)
+    ensures r is Ok <==> (jwk_alg(self) is None || jwk_alg(self)->Some_0 == expected@),
+  {
+    match self.alg() {
+      Some(value) if value == expected => Ok(()),
+      Some(_) => Err(Error::InvalidClaim("alg")),
+      None => Ok(()),
+    }
+  }
 }
 
+/// `decode_b64(payload: &[u8])` / `decode_b64(signature: &str)`: ASSUMED contract of the base64 wrapper
+#[verifier::external_body]
+pub fn decode_b64_bytes(data: &[u8]) -> (r: Result<Vec<u8>>)
+  ensures r is Ok <==> b64url_dec(data@) is Some, r is Ok ==> r->Ok_0@ == b64url_dec(data@)->Some_0
+{ unimplemented!() }
+#[verifier::external_body]
+pub fn decode_b64_str(data: &str) -> (r: Result<Vec<u8>>)
+  ensures r is Ok <==> b64url_dec(data.spec_bytes()) is Some, r is Ok ==> r->Ok_0@ == b64url_dec(data.spec_bytes())->Some_0
+{ unimplemented!() }
+#[verifier::external_body]
+pub fn decode_b64_json(data: &str) -> (r: Result<JwsHeader>)
+  ensures
+    r is Ok <==> (b64url_dec(data.spec_bytes()) is Some && json_header(b64url_dec(data.spec_bytes())->Some_0) is Some),
+    r is Ok ==> r->Ok_0 == json_header(b64url_dec(data.spec_bytes())->Some_0)->Some_0
+{ unimplemented!() }
 
+pub struct VerificationInput {
+  pub alg: JwsAlgorithm,
+  pub signing_input: Box<[u8]>,
+  pub decoded_signature: Box<[u8]>,
+}
+pub trait JwsVerifier {
+  /// what this verifier accepts; ASSUMED of implementors: `verify` is a function of exactly these four things
+  spec fn accepts(&self, alg: JwsAlgorithm, signing_input: Seq<u8>, signature: Seq<u8>, key: &Jwk) -> bool;
+  fn verify(&self, input: VerificationInput, public_key: &Jwk) -> (r: core::result::Result<(), SignatureVerificationError>)
+    ensures r is Ok <==> self.accepts(input.alg, input.signing_input@, input.decoded_signature@, public_key);
+}
+
+pub struct DecodedJws<'a> {
+  pub protected: JwsHeader,
+  pub unprotected: Option<Box<JwsHeader>>,
+  pub claims: Cow<'a, [u8]>,
+}
+pub enum DecodedHeaders {
+  Protected(JwsHeader),
+  Unprotected(JwsHeader),
+  Both {
+    protected: JwsHeader,
+    unprotected: Box<JwsHeader>,
+  },
+}
+pub struct JwsValidationItem<'a> {
+  pub headers: DecodedHeaders,
+  pub signing_input: Box<[u8]>,
+  pub decoded_signature: Box<[u8]>,
+  pub claims: Cow<'a, [u8]>,
+}
+pub struct JwsSignature<'a> {
+  pub header: Option<JwsHeader>,
+  pub protected: Option<&'a str>,
+  pub signature: &'a str,
+}
+pub struct Decoder;
+
+pub open spec fn cow_bytes(c: Cow<'_, [u8]>) -> Seq<u8> { match c { Cow::Borrowed(b) => b@, Cow::Owned(v) => v@ } }
+pub open spec fn prot(h: DecodedHeaders) -> Option<JwsHeader> {
+  match h { DecodedHeaders::Protected(p) => Some(p), DecodedHeaders::Both { protected, .. } => Some(protected), DecodedHeaders::Unprotected(_) => None }
+}
+pub open spec fn unprot(h: DecodedHeaders) -> Option<JwsHeader> {
+  match h { DecodedHeaders::Unprotected(u) => Some(u), DecodedHeaders::Both { unprotected, .. } => Some(*unprotected), DecodedHeaders::Protected(_) => None }
+}
+
+impl DecodedHeaders {
+  fn new(protected: Option<JwsHeader>, unprotected: Option<JwsHeader>) -> (r: Result<Self>)
+    ensures
+      r is Ok <==> (protected is Some || unprotected is Some),
+      r is Ok ==> prot(r->Ok_0) == protected && unprot(r->Ok_0) == unprotected,
+  {
+    match (protected, unprotected) {
+      (Some(protected), Some(unprotected)) => Ok(Self::Both {
+        protected,
+        unprotected: Box::new(unprotected),
+      }),
+      (Some(protected), None) => Ok(Self::Protected(protected)),
+      (None, Some(unprotected)) => Ok(Self::Unprotected(unprotected)),
+      (None, None) => Err(Error::MissingHeader("no headers were decoded")),
+    }
+  }
+  fn protected_header(&self) -> (r: Option<&JwsHeader>)
+    ensures r is Some <==> prot(*self) is Some, r is Some ==> *r->Some_0 == prot(*self)->Some_0,
+  {
+    match self {
+      DecodedHeaders::Protected(ref header) => Some(header),
+      DecodedHeaders::Both { ref protected, .. } => Some(protected),
+      DecodedHeaders::Unprotected(_) => None,
+    }
+  }
+  fn unprotected_header(&self) -> (r: Option<&JwsHeader>)
+    ensures r is Some <==> unprot(*self) is Some, r is Some ==> *r->Some_0 == unprot(*self)->Some_0,
+  {
+    match self {
+      DecodedHeaders::Unprotected(ref header) => Some(header),
+      DecodedHeaders::Both { ref unprotected, .. } => Some(unprotected.as_ref()),
+      DecodedHeaders::Protected(_) => None,
+    }
+  }
+}
+
+impl<'a> JwsValidationItem<'a> {
+  pub fn protected_header(&self) -> (r: Option<&JwsHeader>)
+    ensures r is Some <==> prot(self.headers) is Some, r is Some ==> *r->Some_0 == prot(self.headers)->Some_0,
+  {
+    self.headers.protected_header()
+  }
+  pub fn alg(&self) -> (r: Option<JwsAlgorithm>)
+    ensures r == (if prot(self.headers) is Some { prot(self.headers)->Some_0.alg } else { None }),
+  {
+    self.protected_header().and_then(|protected: &JwsHeader| -> (o: Option<JwsAlgorithm>) ensures o == protected.alg { protected.alg() })
+  }
+
+  pub fn verify<T>(self, verifier: &T, public_key: &Jwk) -> (r: Result<DecodedJws<'a>>) where
+  T: JwsVerifier,
+    ensures
+      r is Ok ==> {
+        // verification without an alg in the PROTECTED header is rejected; the unprotected header is never consulted
+        &&& prot(self.headers) is Some
+        &&& prot(self.headers)->Some_0.alg is Some
+        // an algorithm pinned on the key equals the header's
+        &&& (jwk_alg(public_key) is None || jwk_alg(public_key)->Some_0 == alg_name(prot(self.headers)->Some_0.alg->Some_0))
+        // the verifier is consulted on exactly the stored signing input and signature, with that algorithm and the caller's key
+        &&& verifier.accepts(prot(self.headers)->Some_0.alg->Some_0, self.signing_input@, self.decoded_signature@, public_key)
+        // what is handed back is what was stored
+        &&& cow_bytes(r->Ok_0.claims) == cow_bytes(self.claims)
+        &&& r->Ok_0.protected == prot(self.headers)->Some_0
+        &&& (r->Ok_0.unprotected is Some <==> unprot(self.headers) is Some)
+        &&& (r->Ok_0.unprotected is Some ==> *r->Ok_0.unprotected->Some_0 == unprot(self.headers)->Some_0)
+      },
+      // fail-closed: every failing condition is an error
+      (prot(self.headers) is None || prot(self.headers)->Some_0.alg is None) ==> r is Err,
+      (prot(self.headers) is Some && prot(self.headers)->Some_0.alg is Some
+        && !verifier.accepts(prot(self.headers)->Some_0.alg->Some_0, self.signing_input@, self.decoded_signature@, public_key)) ==> r is Err,
+  {
+    // Destructure data
+    let JwsValidationItem {
+      headers,
+      claims,
+      signing_input,
+      decoded_signature,
+    } = self;
+    let (protected, unprotected): (JwsHeader, Option<Box<JwsHeader>>) = match headers {
+      DecodedHeaders::Protected(protected) => (protected, None),
+      DecodedHeaders::Both { protected, unprotected } => (protected, Some(unprotected)),
+      DecodedHeaders::Unprotected(_) => return Err(Error::MissingHeader("missing protected header")),
+    };
+
+    // Extract and validate alg from the protected header.
+    let alg: JwsAlgorithm = protected.alg().ok_or(Error::ProtectedHeaderWithoutAlg)?;
+    public_key.check_alg(alg.name())?;
+
+    // Construct verification input
+    let input = VerificationInput {
+      alg,
+      signing_input,
+      decoded_signature,
+    };
+    // Call verifier
+    verifier
+      .verify(input, public_key)
+      .map_err(|x_eta| -> (r_eta: Error) ensures r_eta == Error::SignatureVerificationError(x_eta) { Error::SignatureVerificationError(x_eta) })?;
+
+    Ok(DecodedJws {
+      protected,
+      unprotected,
+      claims,
+    })
+  }
+}
+
+// ------------------------------- message construction and payload selection -------------------------------
+pub(crate) fn create_message(header: &[u8], claims: &[u8]) -> (r: Vec<u8>)
+  requires header@.len() + 1 + claims@.len() <= usize::MAX,
+  ensures r@ == header@ + seq![0x2Eu8] + claims@,
+{
+  let capacity: usize = header.len() + 1 + claims.len();
+  let mut message: Vec<u8> = Vec::with_capacity(capacity);
+
+  message.extend(header);
+  message.push(b'.');
+  message.extend(claims);
+  message
+}
+
+/// ASSUMED contract of jwu::filter_non_empty_bytes at the instantiation T = Option<&[u8]>, U = [u8]
+/// (the generic `Into`/`AsRef` plumbing of the real function is not within the verifier's reach)
+#[verifier::external_body]
+pub fn filter_non_empty_bytes<'a>(value: Option<&'a [u8]>) -> (r: Option<&'a [u8]>)
+  ensures r == (if value is Some && value->Some_0@.len() > 0 { value } else { None })
+{ unimplemented!() }
+
+impl Decoder {
+  fn expand_payload<'b>(
+  detached_payload: Option<&'b [u8]>,
+  parsed_payload: Option<&'b [u8]>,
+  ) -> (r: Result<&'b [u8]>)
+    ensures
+      // exactly one payload source: the detached one, or a non-empty embedded one
+      r is Ok <==> ((detached_payload is Some) != (parsed_payload is Some && parsed_payload->Some_0@.len() > 0)),
+      r is Ok && detached_payload is Some ==> r->Ok_0@ == detached_payload->Some_0@,
+      r is Ok && detached_payload is None ==> r->Ok_0@ == parsed_payload->Some_0@,
+  {
+    match (detached_payload, filter_non_empty_bytes(parsed_payload)) {
+      (Some(payload), None) => Ok(payload),
+      (None, Some(payload)) => Ok(payload),
+      (Some(_), Some(_)) => Err(Error::InvalidContent("multiple payloads")),
+      (None, None) => Err(Error::InvalidContent("missing payload")),
+    }
+  }
+}
+
+/// bytes of the protected segment exactly as received ("" when the member is absent)
+pub open spec fn protected_bytes(sig: JwsSignature<'_>) -> Seq<u8> {
+  if sig.protected is Some { sig.protected->Some_0.spec_bytes() } else { Seq::<u8>::empty() }
+}
+pub open spec fn decoded_protected(sig: JwsSignature<'_>) -> Option<JwsHeader> {
+  if sig.protected is Some { json_header(b64url_dec(sig.protected->Some_0.spec_bytes())->Some_0) } else { None }
+}
+
+impl Decoder {
+  fn decode_signature<'a, 'b>(
+  &self,
+  payload: &'b [u8],
+  jws_signature: JwsSignature<'a>,
+  ) -> (r: Result<JwsValidationItem<'b>>)
+    requires payload@.len() + 1 + protected_bytes(jws_signature).len() <= usize::MAX,
+    ensures
+      r is Ok ==> {
+        let item = r->Ok_0;
+        // the signing input is ASCII(protected segment as received) + '.' + payload as received — no re-serialisation
+        &&& item.signing_input@ == protected_bytes(jws_signature) + seq![0x2Eu8] + payload@
+        // the signature bytes are the base64url decoding of the received signature member
+        &&& b64url_dec(jws_signature.signature.spec_bytes()) is Some
+        &&& item.decoded_signature@ == b64url_dec(jws_signature.signature.spec_bytes())->Some_0
+        // the headers kept are the decoded protected segment and the unprotected member, and they satisfy the C11 policy
+        &&& prot(item.headers) == decoded_protected(jws_signature)
+        &&& unprot(item.headers) == jws_signature.header
+        &&& (jws_signature.protected is Some ==> b64url_dec(jws_signature.protected->Some_0.spec_bytes()) is Some
+               && json_header(b64url_dec(jws_signature.protected->Some_0.spec_bytes())->Some_0) is Some)
+        &&& policy_ok(opt_ref(prot(item.headers)), opt_ref(unprot(item.headers)))
+        // the claims handed on are exactly the signed payload: base64url-decoded unless b64=false in the PROTECTED header
+        &&& (b64_of(opt_ref(prot(item.headers))) == Some(false) ==> cow_bytes(item.claims) == payload@)
+        &&& (b64_of(opt_ref(prot(item.headers))) != Some(false) ==> b64url_dec(payload@) is Some && cow_bytes(item.claims) == b64url_dec(payload@)->Some_0)
+      },
+  {
+    let JwsSignature {
+      header: unprotected_header,
+      protected,
+      signature,
+    } = jws_signature;
+
+    let protected_header: Option<JwsHeader> = protected.map(|x_eta| -> (r_eta: _) requires call_requires(decode_b64_json, (x_eta,)) ensures call_ensures(decode_b64_json, (x_eta,), r_eta) { decode_b64_json(x_eta) }).transpose()?;
+    validate_jws_headers(protected_header.as_ref(), unprotected_header.as_ref())?;
+
+    let protected_bytes: &[u8] = protected.map(|x_eta| -> (r_eta: _) requires call_requires(str::as_bytes, (x_eta,)) ensures call_ensures(str::as_bytes, (x_eta,), r_eta) { str::as_bytes(x_eta) }).unwrap_or_default();
+    let signing_input: Box<[u8]> = create_message(protected_bytes, payload).into();
+    let decoded_signature: Box<[u8]> = decode_b64_str(signature)?.into();
+
+    let claims: Cow<'b, [u8]> = if protected_header.as_ref().and_then(|value: &JwsHeader| -> (o: Option<bool>) ensures o == value.b64 { value.b64() }).unwrap_or(true) {
+      Cow::Owned(decode_b64_bytes(payload)?)
+    } else {
+      Cow::Borrowed(payload)
+    };
+
+    Ok(JwsValidationItem {
+      headers: DecodedHeaders::new(protected_header, unprotected_header)?,
+      signing_input,
+      decoded_signature,
+      claims,
+    })
+  }
+}
+pub open spec fn opt_ref(h: Option<JwsHeader>) -> Option<&'static JwsHeader> { if h is Some { Some(&h->Some_0) } else { None } }
 
 } // verus!
 fn main() {}
